@@ -39,8 +39,11 @@ Record Fops := {
   g_utils_ok_linear : F -> F -> F -> bool (* constraint_limits[j], line_currents, tol[j] *)
 }.
 
+(* executable instance: exact rational arithmetic; sums are kept in lowest terms (Qred x == x)
+   so that long dot products of float inputs stay small *)
 Definition QF : Fops := {|
-  F := Q; f0 := 0%Q; fadd := Qplus; fmul := Qmult; fabs := Qabs; fleb := Qleb;
+  F := Q; f0 := 0%Q; fadd := fun a b => Qred (Qplus a b); fmul := Qmult;
+  fabs := Qabs; fleb := Qleb;
   g_net_rel_tol := Feas_Q.Net_rel_tol; g_net_rhs := Feas_Q.Net_rhs;
   g_net_default_vt := Feas_Q.Net_default_vt; g_net_default_rt := Feas_Q.Net_default_rt;
   g_utils_tol := Feas_Q.Utils_tol; g_utils_tol_default := Feas_Q.Utils_tol_default;
